@@ -30,6 +30,7 @@ type recApp struct {
 	hash    []byte
 	hashLog [][]byte // own hash after each commit (what an older snapshot would hold)
 	hgtLog  []int64  // height reported after each commit
+	retain  int64    // > 0: Commit answers RetainHeight = height - retain (the node prunes below it)
 	ih      int64    // InitialHeight (the first block's height); 0/1 = 1
 	pend    *pendExec
 	journal []string
@@ -267,7 +268,11 @@ func (a *recApp) Commit() abci.ResponseCommit {
 	a.mu.Lock()
 	defer a.mu.Unlock()
 	a.record("C")
-	return abci.ResponseCommit{Data: a.hash}
+	res := abci.ResponseCommit{Data: a.hash}
+	if a.retain > 0 && a.height > a.retain {
+		res.RetainHeight = a.height - a.retain
+	}
+	return res
 }
 
 func (a *recApp) CheckTx(req abci.RequestCheckTx) abci.ResponseCheckTx {
@@ -341,7 +346,11 @@ func journalCheckIH(j []string, chain func(h int64) ([]int, bool), ih int64) (co
 				return fail("DeliverTx outside Begin..End")
 			}
 			txs, ok := chain(open.h)
-			if !ok || len(open.txs) >= len(txs) || txs[len(open.txs)] != id {
+			if !ok { // block not available any more (pruned): its transactions cannot be compared
+				open.txs = append(open.txs, id)
+				break
+			}
+			if len(open.txs) >= len(txs) || txs[len(open.txs)] != id {
 				return fail("DeliverTx not the block's next transaction")
 			}
 			open.txs = append(open.txs, id)
@@ -350,8 +359,8 @@ func journalCheckIH(j []string, chain func(h int64) ([]int, bool), ih int64) (co
 			if open == nil || open.ended || open.h != h {
 				return fail("EndBlock without matching BeginBlock")
 			}
-			txs, _ := chain(open.h)
-			if len(open.txs) != len(txs) {
+			txs, known := chain(open.h)
+			if known && len(open.txs) != len(txs) {
 				return fail("EndBlock before all transactions of the block")
 			}
 			open.ended = true
